@@ -255,8 +255,12 @@ def refineLoop (g : Graph α) (res : α) (labels : List Nat) :
     let p := (List.range g.n).foldl (rNodeStep g res labels) (st, false, rands)
     if p.2.1 then refineLoop g res labels fuel p.1 p.2.2 else some (p.1, p.2.2)
 
-/-- `while increase and n_pass <= n:` — the kernel makes at most `n + 1` passes and then returns the labels it
-    has (the first argument counts the passes still allowed) -/
+/-- the bound of `optimize_refine_core` on its passes: `while increase and n_pass < 100:` (/repo 695ec4cc; it was
+    `n + 1` before: a run that cycles on float32 noise was quadratic) -/
+def refinePasses : Nat := 100
+
+/-- `while increase and n_pass < 100:` — the kernel makes at most `refinePasses` passes and then returns the labels
+    it has (the first argument counts the passes still allowed) -/
 def refineCapped (g : Graph α) (res : α) (labels : List Nat) :
     Nat → RSt α → List Nat → RSt α × List Nat
   | 0, st, rands => (st, rands)
@@ -265,10 +269,10 @@ def refineCapped (g : Graph α) (res : α) (labels : List Nat) :
     if p.2.1 then refineCapped g res labels passes p.1 p.2.2 else (p.1, p.2.2)
 
 /-- `optimize_refine_core(...)`: refined labels (and the unused part of the oracle).  The kernel bounds its passes
-    itself (`n + 1`), so it always returns; `_fuel` is no longer consulted (kept for the callers). -/
+    itself (`refinePasses`), so it always returns; `_fuel` is no longer consulted (kept for the callers). -/
 def refineCore (g : Graph α) (res : α) (labels : List Nat) (_fuel : Nat) (st : RSt α) (rands : List Nat) :
     Option (List Nat × List Nat) :=
-  let r := refineCapped g res labels (g.n + 1) st rands
+  let r := refineCapped g res labels refinePasses st rands
   some (r.1.refined, r.2)
 
 end kernel
@@ -388,47 +392,15 @@ def aggregate (labels : List Nat) (lv : Level) : Level :=
 /-- singletons: `np.arange(n)` -/
 def arange (n : Nat) : List Nat := List.range n
 
-/-- `Louvain._optimize(labels, ...)` : fresh copies of the weights, zero scratch — with the loop of the kernel
-    *without* its bound on the passes (`louvainOptimize`, `louvainLoop`, `louvainFit`: the reference chain of C17's
-    termination theorems; the compiled behaviour is the `…Capped` chain below) -/
-def louvainOptimize (lv : Level) (res tolOpt : Rat) (fuel : Nat) (labels : List Nat) :
-    Option (List Nat × Rat) :=
-  optimizeCore lv.graph res tolOpt fuel
-    { labels := labels, outCl := lv.outW, inCl := lv.inW, cw := tab lv.n fun _ => 0 }
-
 structure FitOut where
   labels : List Nat        -- `membership.indices`
   increases : List Rat     -- the `Increase:` figures of the log, in order
 deriving Repr
 
-/-- the `while not stop:` loop of `Louvain.fit`; `memb` maps an original node to its current node -/
-def louvainLoop (res tolOpt tolAgg : Rat) (nAgg : Int) (coreFuel : Nat) :
-    Nat → Nat → Level → List Nat → List Rat → Option FitOut
-  | 0, _, _, _, _ => none
-  | fuel+1, count, lv, memb, incs =>
-    let count := count + 1
-    match louvainOptimize lv res tolOpt coreFuel (arange lv.n) with
-    | none => none
-    | some (labels, inc) =>
-      let labels := uniqueInverse labels
-      let lv' := aggregate labels lv
-      let memb := memb.map fun x => labels.getD x 0
-      let stop := lv'.n == 1 || decide (inc ≤ tolAgg) || decide ((count : Int) = nAgg)
-      if stop then some { labels := memb, increases := incs ++ [inc] }
-      else louvainLoop res tolOpt tolAgg nAgg coreFuel fuel count lv' memb (incs ++ [inc])
+/-! ### the fits as compiled now: both kernels bound their passes (`n + 1` and `refinePasses`) -/
 
-/-- `Louvain.fit(input_matrix, force_bipartite)` with `shuffle_nodes=False, sort_clusters=False`:
-    the labels of all nodes (rows then columns for a bipartite graph) and the logged increases.
-    `res` and `tolOpt` are the values the kernel receives (already rounded to `float`). -/
-def louvainFit (kind : Kind) (res tolOpt tolAgg : Rat) (nAgg : Int) (nRow nCol nnz : Nat)
-    (B : Nat → Nat → Rat) (forceBip : Bool) (coreFuel : Nat) : Except PyErr (Option FitOut) :=
-  match preProcess kind nRow nCol nnz B forceBip with
-  | .error e => .error e
-  | .ok lv => .ok (louvainLoop res tolOpt tolAgg nAgg coreFuel (lv.n + 1) 0 lv (arange lv.n) [])
-
-/-! ### the fits as compiled now: both kernels bound their passes (`n + 1`) -/
-
-/-- `Louvain._optimize(labels, ...)` with the kernel's own bound on the passes (always returns) -/
+/-- `Louvain._optimize(labels, ...)`: fresh copies of the weights, zero scratch; the kernel with its own bound on the
+    passes (always returns) -/
 def louvainOptimizeCapped (lv : Level) (res tolOpt : Rat) (labels : List Nat) : Option (List Nat × Rat) :=
   some (optimizeCoreCapped lv.graph res tolOpt
     { labels := labels, outCl := lv.outW, inCl := lv.inW, cw := tab lv.n fun _ => 0 })
@@ -537,5 +509,84 @@ def leidenFit (kind : Kind) (res tolOpt tolAgg : Rat) (nAgg : Int) (nRow nCol nn
   | .error e => .error e
   | .ok lv =>
     .ok (leidenLoop res tolOpt tolAgg nAgg outerFuel 0 lv (arange lv.n) (arange lv.n) [] rands)
+
+/-! ### the fits with the kernels in binary32
+
+What the compiled code does and the exact models above do not: `_optimize` / `_optimize_refine` cast the arrays of the
+level (`astype(np.float32)`, here `cast`) and the kernels compute in binary32 — `optimizeCoreCapped` / `refineCapped` at
+`Float32`, the very functions the `c06.core` / `c06.refine` lines compare bit for bit with the compiled kernels.  The
+float64 layer (normalisation, `_aggregate`, the comparison with `tol_aggregation`) stays in ℚ.  These models are the
+subject of the statements `…_float32_full` of `Properties/C06.lean`; nothing is proved of them. -/
+
+/-- `Louvain._optimize` with the kernel in binary32; the increase comes back as a Python float -/
+def louvainOptimizeF32 (cast : Rat → Float32) (lv : Level) (res tolOpt : Rat) (labels : List Nat) : List Nat × Rat :=
+  let r := optimizeCoreCapped (lv.graph.mapScalar cast) (cast res) (cast tolOpt)
+    { labels := labels, outCl := lv.outW.map cast, inCl := lv.inW.map cast, cw := tab lv.n fun _ => Scalar.zero }
+  (r.1, f32ToRat r.2)
+
+def louvainLoopF32 (cast : Rat → Float32) (res tolOpt tolAgg : Rat) (nAgg : Int) :
+    Nat → Nat → Level → List Nat → List Rat → Option FitOut
+  | 0, _, _, _, _ => none
+  | fuel+1, count, lv, memb, incs =>
+    let count := count + 1
+    let (labels, inc) := louvainOptimizeF32 cast lv res tolOpt (arange lv.n)
+    let labels := uniqueInverse labels
+    let lv' := aggregate labels lv
+    let memb := memb.map fun x => labels.getD x 0
+    let stop := lv'.n == 1 || decide (inc ≤ tolAgg) || decide ((count : Int) = nAgg)
+    if stop then some { labels := memb, increases := incs ++ [inc] }
+    else louvainLoopF32 cast res tolOpt tolAgg nAgg fuel count lv' memb (incs ++ [inc])
+
+/-- `Louvain.fit` (`shuffle_nodes=False, sort_clusters=False`) with the kernel in binary32 -/
+def louvainFitF32 (cast : Rat → Float32) (kind : Kind) (res tolOpt tolAgg : Rat) (nAgg : Int) (nRow nCol nnz : Nat)
+    (B : Nat → Nat → Rat) (forceBip : Bool) : Except PyErr (Option FitOut) :=
+  match preProcess kind nRow nCol nnz B forceBip with
+  | .error e => .error e
+  | .ok lv => .ok (louvainLoopF32 cast res tolOpt tolAgg nAgg (lv.n + 1) 0 lv (arange lv.n) [])
+
+/-- `membership.T.dot(weights)` on float32 weights: scipy's `csc_matvec` adds the nodes in increasing order, in binary32 -/
+def aggVecF32 (labels : List Nat) (w : List Float32) (k : Nat) : List Float32 :=
+  (List.range labels.length).foldl
+    (fun acc u => acc.set (labels.getD u 0) (acc.getD (labels.getD u 0) Scalar.zero + w.getD u Scalar.zero))
+    (tab k fun _ => Scalar.zero)
+
+/-- `Leiden._optimize` with the kernel in binary32: the cluster weights of the carried labels are float32 sums -/
+def leidenOptimizeF32 (cast : Rat → Float32) (lv : Level) (res tolOpt : Rat) (labels : List Nat) : List Nat × Rat :=
+  let k := nLabels labels
+  let r := optimizeCoreCapped (lv.graph.mapScalar cast) (cast res) (cast tolOpt)
+    { labels := labels, outCl := aggVecF32 labels (lv.outW.map cast) k, inCl := aggVecF32 labels (lv.inW.map cast) k,
+      cw := tab k fun _ => Scalar.zero }
+  (r.1, f32ToRat r.2)
+
+/-- `Leiden._optimize_refine(labels, arange, ...)` with the kernel in binary32 -/
+def leidenRefineF32 (cast : Rat → Float32) (lv : Level) (res : Rat) (labels : List Nat) (rands : List Nat) :
+    List Nat :=
+  (refineCapped (lv.graph.mapScalar cast) (cast res) labels refinePasses
+    { refined := arange lv.n, outCl := lv.outW.map cast, inCl := lv.inW.map cast, cw := tab lv.n fun _ => Scalar.zero }
+    rands).1.refined
+
+def leidenLoopF32 (cast : Rat → Float32) (res tolOpt tolAgg : Rat) (nAgg : Int) :
+    Nat → Nat → Level → List Nat → List Nat → List Rat → List (List Nat) → Option FitOut
+  | 0, _, _, _, _, _, _ => none
+  | fuel+1, count, lv, labels, memb, incs, rands =>
+    let count := count + 1
+    let (labels, inc) := leidenOptimizeF32 cast lv res tolOpt labels
+    let labels := uniqueInverse labels
+    let refined := uniqueInverse (leidenRefineF32 cast lv res labels (rands.headD []))
+    let ar := aggregateRefine labels refined lv
+    let stop := ar.2.n == 1 || ar.2.n == lv.n || decide (inc ≤ tolAgg) || decide ((count : Int) = nAgg)
+    if stop then
+      some { labels := memb.map fun x => labels.getD x 0, increases := incs ++ [inc] }
+    else
+      leidenLoopF32 cast res tolOpt tolAgg nAgg fuel count ar.2 ar.1
+        (memb.map fun x => refined.getD x 0) (incs ++ [inc]) rands.tail
+
+/-- `Leiden.fit` (`shuffle_nodes=False, sort_clusters=False`) with both kernels in binary32 -/
+def leidenFitF32 (cast : Rat → Float32) (kind : Kind) (res tolOpt tolAgg : Rat) (nAgg : Int) (nRow nCol nnz : Nat)
+    (B : Nat → Nat → Rat) (forceBip : Bool) (rands : List (List Nat)) : Except PyErr (Option FitOut) :=
+  match preProcess kind nRow nCol nnz B forceBip with
+  | .error e => .error e
+  | .ok lv =>
+    .ok (leidenLoopF32 cast res tolOpt tolAgg nAgg (lv.n + 1) 0 lv (arange lv.n) (arange lv.n) [] rands)
 
 end SkNet.Modularity
